@@ -416,7 +416,7 @@ class DeblendMachine(Machine):
                  '3-9' if inv <= 9 else '10+')
             st.stats.extra['kendall'][b] = st.stats.extra['kendall'].get(
                 b, 0) + 1
-            if order and order == sorted(order, reverse=True):
+            if len(order) >= 2 and order == sorted(order, reverse=True):
                 st.stats.probe('strictly_reversed_completion')
         if pool_used:
             st.stats.fault('transport', 2 * len(order))
